@@ -4,7 +4,26 @@ import (
 	"fmt"
 	"os"
 
+	"verif/checks/c01"
+	"verif/checks/c02"
+	"verif/checks/c03"
+	"verif/checks/c04"
+	"verif/checks/c05"
+	"verif/checks/c06"
+	"verif/checks/c07"
+	"verif/checks/c08"
+	"verif/checks/c09"
+	"verif/checks/c10"
+	"verif/checks/c11"
+	"verif/checks/c12"
+	"verif/checks/c13"
+	"verif/checks/c14"
+	"verif/checks/c15"
 	"verif/checks/c16"
+	"verif/checks/c17"
+	"verif/checks/c18"
+	"verif/checks/c19"
+	"verif/checks/c20"
 	"verif/internal/core"
 )
 
@@ -14,10 +33,32 @@ type entry struct {
 }
 
 var registry = map[string]entry{
+	"C01": {"model_checking", "NETMC", c01.Run},
+	"C02": {"model_checking", "NETMC", c02.Run},
+	"C03": {"model_checking", "NETMC", c03.Run},
+	"C04": {"model_checking", "NETMC", c04.Run},
+	"C05": {"fault_enumeration", "FAULT", c05.Run},
+	"C06": {"fault_enumeration", "FAULT", c06.Run},
+	"C07": {"model_checking", "NETMC", c07.Run},
+	"C08": {"model_checking", "NETMC", c08.Run},
+	"C09": {"model_checking", "SCHED", c09.Run},
+	"C10": {"exploration", "ENUM", c10.Run},
+	"C11": {"exploration", "ENUM", c11.Run},
+	"C12": {"exploration", "ENUM", c12.Run},
+	"C13": {"exploration", "ENUM", c13.Run},
+	"C14": {"exploration", "ENUM", c14.Run},
+	"C15": {"exploration", "ENUM", c15.Run},
 	"C16": {"exploration", "ENUM", c16.Run},
+	"C17": {"exploration", "ENUM", c17.Run},
+	"C18": {"exploration", "ENUM", c18.Run},
+	"C19": {"model_checking", "SCHED+ENUM", c19.Run},
+	"C20": {"model_checking", "NETMC", c20.Run},
 }
 
 func main() {
+	if len(os.Args) >= 2 && os.Args[1] == "worker" {
+		os.Exit(workerMain(os.Args[2:]))
+	}
 	if len(os.Args) < 3 {
 		fmt.Fprintln(os.Stderr, "usage: check <Cnn> quick|thorough")
 		os.Exit(2)
